@@ -27,7 +27,8 @@ def build_case(rng: random.Random) -> dict:
         'lines': [rng.choice(LINE_POOL) for _ in range(rng.choice([0, 1, 1, 2, 3, 4, 6, 9]))],
         'repeat': rng.choice([1, 1, 1, 2, 3]),
         'via': rng.choice(['to_list', 'to_str', 'textblock', 'textblock_header',
-                           'textblock_set_indentor', 'textblock_given_once']),
+                           'textblock_set_indentor', 'textblock_given_once',
+                           'textblock_forked']),
         'nested': rng.random() < 0.15,
     }
     if case['via'] in ('to_list', 'to_str') and rng.random() < 0.25 and case['lines']:
@@ -140,6 +141,24 @@ def eval_case(case: dict) -> dict:
                     else:
                         cnt['unspecified_to_str_of_nothing'] = 1
                 src = content = got
+        elif case['via'] == 'textblock_forked':
+            # one prepared block rendered under several layouts: each layout indents a copy
+            # (copy.copy) of it; the prepared block, and the lines read from it before, stay
+            import copy  # pylint: disable=import-outside-toplevel
+            tb = tg.TextBlock(list(lines))
+            held = tb.lines
+            src = list(held)
+            for step in range(case['repeat'] + 1):
+                fork = copy.copy(tb)
+                fork.indent(ind)
+                got = list(fork.lines)
+                for mech, detail in judge_lines(case, src, got):
+                    viol(mech, forked_copy=step, **detail)
+                cnt['lines_judged'] = cnt.get('lines_judged', 0) + len(src)
+            cnt['forked_copies_indented'] = case['repeat'] + 1
+            if list(tb.lines) != src or list(held) != src:
+                viol('indenting-a-copy-shifted-the-prepared-block', want=src, got=list(tb.lines),
+                     held=list(held))
         else:
             header = ['H1', '  h2'] if case['via'] == 'textblock_header' else None
             tb = tg.TextBlock(list(lines), header=header) if header else tg.TextBlock(list(lines))
@@ -199,7 +218,7 @@ def main(tier: str) -> int:
     run.require('lines_judged', 'to_str_compared', 'headers_checked', 'glyph_wider_than_indent',
                 'mode_none_spaces', 'mode_all_spaces', 'mode_first_spaces', 'mode_none_tab',
                 'mode_all_tab', 'mode_first_tab', 'width_from_overridden_module_default',
-                'lines_with_inner_line_boundaries')
+                'lines_with_inner_line_boundaries', 'forked_copies_indented')
     for _item, res in run.pmap(_worker, [(run.seed, i, per) for i in range(total // per)]):
         if 'harness_error' in res:
             run.mark_inconclusive('harness error: ' + res['harness_error'][-300:])
